@@ -26,6 +26,31 @@ def casing(word, mode, rnd):
     return word
 
 
+PUNCT = set(';=()[],:+-*/%<>?|&^.')
+
+
+def word_of(tok):
+    return tok[1:] if tok.startswith('?') else tok
+
+
+def can_glue(text, word):
+    """may `word` follow the text written so far without white space? (only where the lexer still sees two tokens)"""
+    a, b = text[-1], word[0]
+    if a not in PUNCT and b not in PUNCT:
+        return False
+    if word.startswith('::') and (a.isalnum() or a == '_'):
+        return False                      # `name::` is a namespace
+    if a + b in ('==', '!=', '<=', '>=', '->', '::', '//', '/*', '*/'):
+        return False
+    if a == '.' and not (len(text) > 1 and not text[-2].isdigit() and (b.isalpha() or b in '\'"_')):
+        return False                      # `1.` and `.5` are reals; only `x.attr` and `R1.'phrase'` are glued after a dot
+    if b == '.':
+        if len(word) > 1:
+            return a in '+-*%(=,:<>['     # a real such as .5
+        return not (a.isdigit() or a == '.')
+    return True
+
+
 def render(toks, seed, case='lower', layout='mixed', keep=None):
     """-> text, tokpos (per canonical token: p, sl, sc, el, ec, so, eo)"""
     rnd = random.Random(seed)
@@ -49,11 +74,16 @@ def render(toks, seed, case='lower', layout='mixed', keep=None):
         if not present:
             tokpos.append({'p': False, 'sl': 0, 'sc': 0, 'el': 0, 'ec': 0, 'so': 0, 'eo': 0})
             continue
-        # separator (none before the very first token half of the time)
+        # separator (none before the very first token half of the time); in the non-plain layouts tokens are also
+        # written without anything between them, or with a comment directly attached, where that cannot merge them
         if text or rnd.random() < 0.5:
             s = rnd.choice(SEPS[layout])
-            if text and text[-1] == ':' and toks[i - 1].endswith('::'):
-                pass
+            if text and layout != 'plain' and rnd.random() < 0.2:
+                tight = rnd.choice(['', '', '', '/* t */', '// t\n', '/**/'])
+                if tight == '' and can_glue(text, word_of(tok)):
+                    s = ''
+                elif tight and text[-1] != '/':
+                    s = tight
             text += s
             line += s.count('\n')
         if word.split(' ')[0] == 'end' and ' ' in word:            # END_IF / END_FOR / END_WHILE: inner whitespace
